@@ -11,6 +11,8 @@ import (
 	"sync"
 
 	"github.com/yuin/goldmark/ast"
+	"github.com/yuin/goldmark/parser"
+	"github.com/yuin/goldmark/text"
 
 	"verif/internal/core"
 )
@@ -890,4 +892,53 @@ func SinkLineShapeDocs() [][]byte {
 		}
 	}
 	return docs
+}
+
+// sharedContextSub converts (or parses) runs of three consecutive corpus documents d_i, d_i+1, d_i on one instance with ONE
+// parser.Context handed in through parser.WithContext / Parse(…, WithContext) and hands every result to judge. Only
+// oracles that hold for each result on its own may be used here: link reference definitions and heading ids
+// legitimately survive in a reused context.
+func sharedContextSub(r *core.Run, name, what string, cfg core.Cfg, docs [][]byte,
+	judge func(s *core.Sub, cfg core.Cfg, d []byte, out []byte, tree ast.Node, hist []string)) {
+	s := r.Sub(name, fmt.Sprintf("%d runs of three documents (d_i, d_i+1, d_i of the structured corpus) converted and parsed one after the other on one instance with one parser.Context passed through parser.WithContext, under %s: %s", len(docs), cfg, what))
+	s.Planned = int64(3 * len(docs))
+	s.Bound = fmt.Sprintf("%d runs × 3 documents", len(docs))
+	complete := core.ForEachIndex(len(docs), core.Workers(), func(w int) func(int) {
+		md := cfg.New()
+		var buf bytes.Buffer
+		return func(i int) {
+			pc := parser.NewContext()
+			var hist []string
+			hist = append(hist, "pc := parser.NewContext()")
+			for _, d := range [][]byte{docs[i], docs[(i+1)%len(docs)], docs[i]} {
+				buf.Reset()
+				var pan any
+				var err error
+				var tree ast.Node
+				func() {
+					defer func() { pan = recover() }()
+					err = md.Convert(d, &buf, parser.WithContext(pc))
+					tree = md.Parser().Parse(text.NewReader(d), parser.WithContext(pc))
+				}()
+				s.Evals.Add(1)
+				hist = append(hist, "Convert("+core.Q(d)+", WithContext(pc)); Parse(same, WithContext(pc))")
+				if pan != nil || err != nil {
+					s.Violate("convert-failed:shared-context", cfg.String(), d, hist, fmt.Sprint("panic=", pan, " err=", err), "", "")
+					md = cfg.New()
+					break
+				}
+				judge(s, cfg, d, buf.Bytes(), tree, hist)
+			}
+			s.Distinct(core.Hash(docs[i]))
+			if i%(len(docs)/5+1) == 0 {
+				s.AddSample([]string{core.Q(docs[i]), core.Q(docs[(i+1)%len(docs)])})
+			}
+		}
+	}, r.Expired)
+	if !complete {
+		s.Incomplete("internal deadline reached")
+	}
+	s.States.Store(int64(len(docs)))
+	s.Transitions.Store(s.Evals.Load())
+	s.Done()
 }
